@@ -254,16 +254,42 @@ func ruleSNSyms(p *Prog, r *Reporter) {
 		s := p.D(litFields(a)["Symbols"])
 		r.Check(strings.Contains(s, V+".symbols"), p.instrPos(a), p.FuncName(ser), "snapshot symbols", "the authorizer's symbol table is saved", "the snapshot saves "+s+" as symbol table, not the authorizer's table its content was interned in")
 	}
-	for _, c := range callsIn(ser) {
-		if f := c.Common().StaticCallee(); f != nil && f.Name() == "convert" && len(c.Common().Args) == 2 {
-			r.Check(p.D(c.Common().Args[1]) == V+".symbols", p.instrPos(c), p.FuncName(ser), "convert with authorizer symbols", "checks/policies interned into the saved table", "a check or policy is interned into "+shortD(c.Common().Args[1])+" but the snapshot saves the authorizer's table")
+	symD := func(v ssa.Value) bool {
+		d := p.D(v)
+		return d == V+".symbols" || d == "^"+V+".symbols"
+	}
+	for _, f2 := range withClosures(ser) {
+		for _, c := range callsIn(f2) {
+			if f := c.Common().StaticCallee(); f != nil && f.Name() == "convert" && len(c.Common().Args) == 2 {
+				r.Check(symD(c.Common().Args[1]), p.instrPos(c), p.FuncName(ser), "convert with authorizer symbols", "checks/policies interned into the saved table", "a check or policy is interned into "+shortD(c.Common().Args[1])+" but the snapshot saves the authorizer's table")
+			}
 		}
+	}
+	// a function literal that interns with the authorizer's table (handed to an element-wise helper)
+	internClosure := func(x ssa.Value) bool {
+		mc, ok := x.(*ssa.MakeClosure)
+		if !ok {
+			return false
+		}
+		cl, _ := mc.Fn.(*ssa.Function)
+		if cl == nil {
+			return false
+		}
+		for _, c := range callsIn(cl) {
+			if f := c.Common().StaticCallee(); f != nil && f.Name() == "convert" && len(c.Common().Args) == 2 && symD(c.Common().Args[1]) {
+				return true
+			}
+		}
+		return false
 	}
 	// the saved checks and policies must visibly be the result of convert(..., v.symbols) in this function
 	for _, a := range allocsOf(ser, "pb", "AuthorizerPolicies") {
 		for _, fld := range []string{"Checks", "Policies"} {
 			v := litFields(a)[fld]
 			ok := v != nil && dependsOn(v, func(x ssa.Value) bool {
+				if internClosure(x) {
+					return true
+				}
 				c, isC := x.(*ssa.Call)
 				return isC && c.Call.StaticCallee() != nil && c.Call.StaticCallee().Name() == "convert" && len(c.Call.Args) == 2 && p.D(c.Call.Args[1]) == V+".symbols"
 			})
@@ -275,7 +301,14 @@ func ruleSNSyms(p *Prog, r *Reporter) {
 		sv, _ := litFields(a)["Symbols"].(ssa.Instruction)
 		okOrder := sv != nil
 		for _, c := range callsIn(ser) {
-			if f := c.Common().StaticCallee(); f != nil && f.Name() == "convert" && sv != nil && !instrDominates(c, sv) && reachAvoiding(sv.Block(), c.Block(), nil) && sv.Block() != c.Block() {
+			f := c.Common().StaticCallee()
+			interns := f != nil && f.Name() == "convert"
+			for _, a := range c.Common().Args {
+				if internClosure(a) {
+					interns = true
+				}
+			}
+			if interns && sv != nil && !instrDominates(c, sv) && reachAvoiding(sv.Block(), c.Block(), nil) && sv.Block() != c.Block() {
 				okOrder = false
 			}
 		}
@@ -1446,8 +1479,22 @@ func ruleSNAll(p *Prog, r *Reporter) {
 		return isCallTo(&c.Call, "datalog.World.AddFact", "datalog.World.AddRule")
 	}
 	n := 0
+	mappers := map[*ssa.Function]bool{}
 	for _, f := range sortedFuncs(p, fns) {
 		n += checkElemwiseLoops(p, r, f, p.FuncName(f), sink)
+		// a sequence handed to an element-wise helper (out[i] = conv(in[i]) over the full range) is treated like a loop
+		for _, c := range callsIn(f) {
+			h := c.Common().StaticCallee()
+			if h == nil || !p.isRepoFunc(h) || h.Blocks == nil || !isElementwiseMapper(h) {
+				continue
+			}
+			n++
+			r.OK(p.instrPos(c), p.FuncName(f), "element-wise helper over "+normaliseD(shortD(c.Common().Args[0])), "converted by "+calleeName(h)+", which writes one output element per input element")
+			mappers[h] = true
+		}
+	}
+	for _, h := range sortedFuncs(p, mappers) {
+		checkElemwiseLoops(p, r, h, p.FuncName(h), nil)
 	}
 	if n == 0 {
 		r.Bad("?", "biscuit.authorizer", "snapshot loops", "no element-wise loop found in saving / loading")
@@ -2161,4 +2208,43 @@ func positiveGuard(g guard, x ssa.Value) int {
 		res = -res
 	}
 	return res
+}
+
+// isElementwiseMapper: a function (in []T, conv func(T) ...) that ranges over its slice parameter in full,
+// calls its function parameter on the element and stores the result at the same index of (or appends it to) the slice it returns.
+func isElementwiseMapper(h *ssa.Function) bool {
+	if len(h.Params) < 2 {
+		return false
+	}
+	var in, conv *ssa.Parameter
+	for _, pr := range h.Params {
+		switch pr.Type().Underlying().(type) {
+		case *types.Slice:
+			if in == nil {
+				in = pr
+			}
+		case *types.Signature:
+			if conv == nil {
+				conv = pr
+			}
+		}
+	}
+	if in == nil || conv == nil {
+		return false
+	}
+	for _, rl := range rangeLoops(h) {
+		if rl.seq != ssa.Value(in) {
+			continue
+		}
+		for b := range rl.body {
+			for _, instr := range b.Instrs {
+				c, ok := instr.(*ssa.Call)
+				if !ok || c.Call.Value != ssa.Value(conv) || len(c.Call.Args) == 0 || !rl.isElem(c.Call.Args[0]) {
+					continue
+				}
+				return true
+			}
+		}
+	}
+	return false
 }
